@@ -278,6 +278,7 @@ class Scen:
         self.mods = []          # per module: list of callable function names ([] for a module without f)
         self.image = None       # (kind, [functions callable after reading it back]) of the last binary image written
         self.headers_done = False
+        self.labval = False     # some C unit of the context takes label addresses into static data (lref items)
         # Optimisation levels are mixed freely inside one MIR_gen_init session (the defect that forbade raising the
         # level from <2 to >=2 was fixed in /repo, 32f1502a).
         self.opt_levels = [0, 1, 2, 3] if MIX_OPT_CLASSES else rng.choice([[0, 1], [2, 3]])
@@ -314,6 +315,8 @@ class Scen:
             i = rng.randrange(len(C_POOL))
             tag, src, need = 'c%d' % i, C_POOL[i], ''
             kind = 'c%d' % i
+        if LABEL_VALUE.search(src):
+            self.labval = True
         if 'I' in need.split(',') and not self.headers_done:
             for hn in sorted(CS.HEADERS):
                 self.lines.append('file %s %s' % (hn, hexs(CS.HEADERS[hn])))
@@ -379,7 +382,11 @@ class Scen:
     def io_steps(self, readable):
         """text / binary output of what the context holds now; `readable`: the image may be read back later"""
         rng = self.rng
-        if rng.random() < 0.35:
+        # no text output of label-reference items once their functions were linked under the lazy-BB interface: BB-wise
+        # generation replaces the label of an lref whose block was removed by NULL in the user's IR and never restores
+        # it (MIR_output_item then dereferences it) -- one more face of the /repo limitation described below
+        lref_lazybb = self.labval and 'lazybb' in self.func_iface.values()
+        if rng.random() < 0.35 and not lref_lazybb:
             k = rng.choice(['output', 'output', 'outmod', 'outitems'])
             self.lines.append(k if k == 'output' else '%s %d' % (k, rng.randrange(len(self.mods) or 1)))
             self.kinds.append(k)
@@ -621,6 +628,16 @@ def fixed_scenarios():
     return out
 
 
+LABEL_VALUE = re.compile(r'[=({,?:]\s*&&\s*[A-Za-z_]')   # the unary && of "labels as values", not the logical and
+
+
+def _unhex(h):
+    try:
+        return binascii.unhexlify(h)
+    except Exception:
+        return b''
+
+
 def valid(lines):
     """is the script a legal, error-free-by-construction API history?  (used when shrinking a failing
     script: a shrunk script must still be a history the property quantifies over)"""
@@ -668,6 +685,8 @@ def valid(lines):
             if not s['c2m'] or a1 is None or a2 is None:
                 return False
             s['mods'].append(['f' + a1[1:-2]])
+            if LABEL_VALUE.search(_unhex(a2).decode(errors='replace')):
+                s['labval'] = True
         elif cmd in ('c2mx', 'c2mt'):
             if not s['c2m'] or a1 is None or a2 is None:
                 return False
@@ -688,6 +707,8 @@ def valid(lines):
                     return False
             if 'E' not in opts and 'S' not in opts:
                 s['mods'].append(['f' + a1[1:-2]])
+                if LABEL_VALUE.search(txt):
+                    s['labval'] = True
         elif cmd == 'scan':
             try:
                 txt = binascii.unhexlify(a1).decode()
@@ -710,6 +731,8 @@ def valid(lines):
             s['mods'].append(list(s['image']))
         elif cmd in ('output', 'outmod', 'outitems'):
             if cmd != 'output' and not s['mods']:
+                return False
+            if s.get('labval') and 'lazybb' in s['fiface'].values():
                 return False
         elif cmd == 'load':
             s['loaded'] = len(s['mods'])
